@@ -1,6 +1,6 @@
 SPECIFICATION MCSpec
 CONSTANTS Classes = {1, 2, 3, 4}
-  Codes = {7, 8}
+  Codes = {6, 7, 8}
   SortedHash = TRUE
   Full = FALSE
   InitSizes = {8}
